@@ -50,7 +50,9 @@ def cases(draw, big=False):
                 # what the file records: other transform, other critical depth, stretching from parameters
                 vinfo=draw(st.one_of(st.none(), st.none(), st.fixed_dictionaries(dict(
                     theta_s=st.floats(1.0, 7.0), theta_b=st.floats(0.1, 1.0), Vstretching=st.sampled_from([1, 2, 4]),
-                    hcf=st.floats(0.1, 0.9))))))
+                    hcf=st.floats(0.1, 0.9))))),
+                # a backwards run: the clock starts at the later frame and the particles feel the opposite velocity
+                reverse=draw(st.sampled_from([False, False, True])))
 
 
 def build_fields(case, G):
@@ -135,8 +137,10 @@ def ladim_sample(d, fname, sub, case, X, Y, Z, ffile=None, nupdates=1):
     ivars = {nm: "float" for nm in case["scalars"]}
     modules["state"] = init_module("state", {"instance_variables": ivars,
                                              "default_values": {nm: 0.0 for nm in ivars}}, modules)
-    modules["time"] = init_module("time", {"start": e2e.iso(scen.T0), "stop": e2e.iso(scen.T0 + scen.S(4 * DT)),
-                                           "dt": DT}, modules)
+    tconf = {"start": e2e.iso(scen.T0), "stop": e2e.iso(scen.T0 + scen.S(4 * DT)), "dt": DT}
+    if case.get("reverse"):
+        tconf.update(start=tconf["stop"], stop=tconf["start"], time_reversal=True)
+    modules["time"] = init_module("time", tconf, modules)
     gconf = {"filename": str(fname)}
     if sub is not None:
         gconf["subgrid"] = list(sub)
@@ -170,8 +174,9 @@ def ladim_sample(d, fname, sub, case, X, Y, Z, ffile=None, nupdates=1):
         u, v = force.velocity(state.X, state.Y, state.Z)
     else:
         u, v = force.velocity(X, Y, Z)
-    out = dict(u=np.array(u), v=np.array(v), vu=np.array(force.variables["u"])[keep],
-               vv=np.array(force.variables["v"])[keep], keep=keep, Cs_r=np.array(modules["grid"].Cs_r, float))
+    sgn = -1.0 if case.get("reverse") else 1.0  # backwards: the flow of opposite sign (C10); compared as the flow itself
+    out = dict(u=sgn * np.array(u), v=sgn * np.array(v), vu=sgn * np.array(force.variables["u"])[keep],
+               vv=sgn * np.array(force.variables["v"])[keep], keep=keep, Cs_r=np.array(modules["grid"].Cs_r, float))
     for nm in case["scalars"]:
         out[nm] = np.array(force.variables[nm], float)[keep]
         out["state_" + nm] = np.array(state[nm], float)
@@ -199,6 +204,10 @@ def oracle(case) -> core.CaseResult:
             "i2b": ("i2", 2.5e-4)}
     storage = stor[case["storage"]]
     fr = case.get("frame", 0)
+    rev = bool(case.get("reverse"))
+    fe = 1 - fr if rev else fr  # the file frame in force: a backwards run starts at the later one
+    if rev:
+        res.cls("backwards_run")
     two = bool(case.get("two_files"))
     st2 = case.get("storage2", "f8") if two else case["storage"]
     storage2 = stor[st2]
@@ -253,11 +262,11 @@ def oracle(case) -> core.CaseResult:
         # levels from the requested set-up: the library's stretching curve (judged by C12) through the reference
         # depth formula with the requested transform and critical depth
         zr = roms.ref_zr(G["h"], case["Vinfo"]["hc"], got["Cs_r"], case["Vinfo"]["Vtransform"], "rho")
-    U0, V0 = np.asarray(dec["u"][fr], float), np.asarray(dec["v"][fr], float)
+    U0, V0 = np.asarray(dec["u"][fe], float), np.asarray(dec["v"][fe], float)
     scale = max(1.0, float(np.max(np.abs(U0))), float(np.max(np.abs(V0))))
-    st_fr = st2 if fr == 1 else case["storage"]
+    st_fr = st2 if fe == 1 else case["storage"]
     # a frame reached through the per-step increments (u += dU, four times) carries a few more roundings
-    tol = ((1e-12 if (st_fr == "f8" and case["storage"] == "f8") else 8 * 2.0**-23) * scale) * (1 if fr == 0 else 3)
+    tol = ((1e-12 if (st_fr == "f8" and case["storage"] == "f8" and st2 == "f8") else 8 * 2.0**-23) * scale) * (1 if fr == 0 else 3)
     nontriv = 0
     for n in range(len(X)):
         cand = list(itertools.product(roms.cell_candidates(X[n]), roms.cell_candidates(Y[n])))
@@ -279,7 +288,7 @@ def oracle(case) -> core.CaseResult:
                   f"forcing.variables u/v differ from velocity() at particle {n}")
         if lin is not None:
             zc = min(max(-Z[n], zr[0, cell[1], cell[0]]), zr[-1, cell[1], cell[0]])
-            wu = lin["u"][0] + lin["u"][1] * X[n] + lin["u"][2] * Y[n] + lin["gz"] * zc + (0.3 if fr == 1 else 0.0)
+            wu = lin["u"][0] + lin["u"][1] * X[n] + lin["u"][2] * Y[n] + lin["gz"] * zc + (0.3 if fe == 1 else 0.0)
             wv = lin["v"][0] + lin["v"][1] * X[n] + lin["v"][2] * Y[n] + lin["gz"] * zc
             ltol = tol + (3e-4 if st_fr in ("i2", "i2b") else 0) + 1e-9
             res.check(abs(got["u"][n] - wu) <= ltol and abs(got["v"][n] - wv) <= ltol, "linear_exact",
@@ -291,7 +300,7 @@ def oracle(case) -> core.CaseResult:
                       f"pos ({X[n]}, {Y[n]}): subgrid {case['sub']} gives ({got['u'][n]}, {got['v'][n]}), "
                       f"full grid ({got_full['u'][n]}, {got_full['v'][n]})")
         for nm in case["scalars"]:
-            F = np.asarray(dec[nm][fr], float)
+            F = np.asarray(dec[nm][fe], float)
             cands = []
             for ci, cj in cand:
                 # a depth within rounding of a level may be bracketed from either side
